@@ -58,6 +58,29 @@ pub struct MetaDecoded {
     pub manifest: BTreeMap<u32, u64>,
 }
 
+#[derive(serde::Serialize)]
+struct MetaOut<'a> {
+    metadata: &'a anda_db_tfs::BM25Metadata,
+}
+
+/// The same store in the pre-manifest layout: every object the manifest references re-keyed to
+/// generation 0, the metadata without a manifest (what a pre-manifest release left behind).
+pub fn to_legacy(store: &MemStore) -> Option<MemStore> {
+    let bytes = store.meta.as_ref()?;
+    let mut w: MetaWire = cbor2::from_reader(&bytes[..]).ok()?;
+    let mut out = MemStore::default();
+    for (b, g) in &w.metadata.buckets {
+        if let Some(o) = store.objs.get(&(*b, *g)) {
+            out.objs.insert((*b, 0), o.clone());
+        }
+    }
+    w.metadata.buckets.clear();
+    let mut buf = Vec::new();
+    cbor2::to_writer(&MetaOut { metadata: &w.metadata }, &mut buf).ok()?;
+    out.meta = Some(buf);
+    Some(out)
+}
+
 pub fn decode_meta(bytes: &[u8]) -> Option<MetaDecoded> {
     let w: MetaWire = cbor2::from_reader(bytes).ok()?;
     Some(MetaDecoded { version: w.metadata.stats.version, max_bucket_id: w.metadata.stats.max_bucket_id, manifest: w.metadata.buckets })
